@@ -574,9 +574,9 @@ fn empty_unit(tier: Tier, shard: usize, ctx: &mut Ctx) {
 
 // ------------------------------------------------------------------ cell budget
 
-fn budget_case(n: usize, e: &Entry, cc: &mut CaseCtx) {
-    // no common 3-mer: the band is the full matrix of (n+1)^2 cells; budget = 5_000_000
-    let x = vec![b'a'; n];
+fn budget_case(m: usize, n: usize, e: &Entry, cc: &mut CaseCtx) {
+    // no common 3-mer: the band is the full matrix of (m+1)(n+1) cells; budget = 5_000_000
+    let x = vec![b'a'; m];
     let y = vec![b'b'; n];
     let scheme = Scheme {
         subst: Subst { kind: 0, emb: [b'a', b'b', b'c'] },
@@ -587,12 +587,12 @@ fn budget_case(n: usize, e: &Entry, cc: &mut CaseCtx) {
         yclip_prefix: 0,
         yclip_suffix: 0,
     };
-    let cells = (n + 1) * (n + 1);
+    let cells = (m + 1) * (n + 1);
     cc.nontrivial();
     let got = match guard(|| call_entry(&mut new_aligner(&scheme, 3, 2, 0), e, &x, &y, 3, &[])) {
         Ok(a) => a,
-        Err(m) => {
-            cc.violation(format!("C02/{}/budget/panic", e.name()), m);
+        Err(msg) => {
+            cc.violation(format!("C02/{}/budget/panic", e.name()), msg);
             return;
         }
     };
@@ -606,25 +606,35 @@ fn budget_case(n: usize, e: &Entry, cc: &mut CaseCtx) {
             );
         }
     } else {
-        // must be computed, and equal the unbanded aligner (which C01 validates)
+        // within the budget: must be computed, and equal the unbanded aligner (which C01 validates)
         let mode = e.mode();
         let mut full = bio::alignment::pairwise::Aligner::with_scoring(scoring_of(&scheme));
         let want = super::c01::call_mode(&mut full, mode, &x, &y);
-        if got.score != want.score || got.xlen != n {
+        if got.score != want.score || got.xlen != m || got.ylen != n {
             cc.violation(
-                format!("C02/{}/budget/under-budget-wrong", e.name()),
-                format!("{} cells <= 5000000: banded score {} (xlen {}) unbanded score {}", cells, got.score, got.xlen, want.score),
+                format!("C02/{}/budget/within-budget-refused-or-wrong", e.name()),
+                format!("{} cells <= 5000000: banded score {} (xlen {}, ylen {}) unbanded score {}", cells, got.score, got.xlen, got.ylen, want.score),
             );
         }
     }
 }
 
+/// (|x|, |y|) around the 5,000,000-cell budget: just below, exactly at, just above
+const BUDGET_SIZES: [(usize, usize); 7] = [
+    (2235, 2235),    // 4,999,696
+    (1999, 2499),    // 5,000,000 exactly: still within the documented budget
+    (2499, 1999),    // 5,000,000 exactly, transposed
+    (1, 2_499_999),  // 5,000,000 exactly, extreme shape
+    (2, 1_666_666),  // 5,000,001
+    (2236, 2236),    // 5,004,169
+    (4999, 1000),    // 5,005,000
+];
+
 fn budget_unit(ctx: &mut Ctx, which: usize) {
     let entries = [Entry::Custom, Entry::Global, Entry::Semiglobal, Entry::Local];
-    let ns = [2235usize, 2236];
     let e = &entries[which % 4];
-    for &n in &ns {
-        ctx.case(|| json!({"kind": "budget", "n": n, "entry": e}), |cc| budget_case(n, e, cc));
+    for &(m, n) in &BUDGET_SIZES {
+        ctx.case(|| json!({"kind": "budget", "m": m, "n": n, "entry": e}), |cc| budget_case(m, n, e, cc));
     }
 }
 
@@ -638,7 +648,7 @@ impl Prop for C02Prop {
         "exploration"
     }
     fn rule(&self) -> &'static str {
-        "Complete sweep: every pair of non-empty sequences up to the length bound x scoring grid (substitution x gap_open x gap_extend x 4^4 clip penalties set through get_mut_scoring on one reused aligner per (scheme,k,w)) x (k,w) grid x entry points (custom on all 256 clip schemes; prehash and expanded matches with allowed_mismatches in {None,0,1} x union flag on every 3rd (quick) / 2nd (thorough); on every 9th clip scheme every subset of the true k-mer match list and every valid chain of <=3 matches + the LCSk++ path; on every 37th the four standard-mode entry points followed by custom again). Inputs with an empty sequence: separate units, each call in a forked child under an address-space cap and a 10 s limit. Two inputs around the 5,000,000-cell budget per mode. Each call is enumerated once. Non-trivial: both sequences non-empty and the returned alignment has a gap or a clipped end (forked and budget cases: all)."
+        "Complete sweep: every pair of non-empty sequences up to the length bound x scoring grid (substitution x gap_open x gap_extend x 4^4 clip penalties set through get_mut_scoring on one reused aligner per (scheme,k,w)) x (k,w) grid x entry points (custom on all 256 clip schemes; prehash and expanded matches with allowed_mismatches in {None,0,1} x union flag on every 3rd (quick) / 2nd (thorough); on every 9th clip scheme every subset of the true k-mer match list and every valid chain of <=3 matches + the LCSk++ path; on every 37th the four standard-mode entry points followed by custom again). Inputs with an empty sequence: separate units, each call in a forked child under an address-space cap and a 10 s limit. Seven inputs just below, exactly at and just above the 5,000,000-cell budget per mode. Each call is enumerated once. Non-trivial: both sequences non-empty and the returned alignment has a gap or a clipped end (forked and budget cases: all)."
     }
     fn assumptions(&self) -> Vec<&'static str> {
         vec![
@@ -655,7 +665,7 @@ impl Prop for C02Prop {
             "substitution": "(+1,-1) (+2,-3) asymmetric table", "gaps(open,extend)": tier.pick("(0,-1) (-2,-1) (-2,0)", "(0,0) (0,-1) (-2,0) (-2,-1) (-3,0) (-3,-1)"),
             "clip_penalties": "{MIN_SCORE,0,-1,-4}^4", "match_subsets": tier.pick("all subsets when <=4 matches, else 7-shape family", "all subsets when <=6 matches, else 7-shape family"),
             "empty_inputs": tier.pick("('',''), ('',s), (s,'') for s in {a,b}^{1..2}; 24 clip settings ({MIN,0}^4 + one -1); k=1,w=0; 6 entry points", "s in {a,b}^{1..3}; 81 clip settings; 3 schemes; (k,w) in {(1,0),(2,1)}; 6 entry points"),
-            "budget": "|x|=|y| in {2235 (4,999,696 cells), 2236 (5,004,169 cells)} x {custom, global, semiglobal, local}",
+            "budget": "(|x|,|y|) in {(2235,2235) 4,999,696; (1999,2499),(2499,1999),(1,2499999) exactly 5,000,000; (2,1666666) 5,000,001; (2236,2236); (4999,1000)} x {custom, global, semiglobal, local}",
         })
     }
     fn units(&self, tier: Tier) -> Vec<String> {
@@ -726,8 +736,9 @@ impl Prop for C02Prop {
             }
             "budget" => {
                 let n = case["n"].as_u64().unwrap() as usize;
+                let m = case["m"].as_u64().unwrap_or(n as u64) as usize;
                 let e: Entry = serde_json::from_value(case["entry"].clone()).unwrap();
-                ctx.case(|| case.clone(), |cc| budget_case(n, &e, cc));
+                ctx.case(|| case.clone(), |cc| budget_case(m, n, &e, cc));
             }
             _ => {}
         }
